@@ -28,8 +28,10 @@ RULE = ("grid: single-locus cases over genes {low, interior, up} x eta {0,1,20,1
         "bounded SBX / polynomial mutation with genes on or one ulp from a bound, bound pairs of unequal magnitude "
         "(xl + (xu - xl) != xu), boundary draws, so that the value before `min(max(c, xl), xu)` leaves the bounds by "
         "rounding (tag letters 1, 2 = clamp of child 1 / 2 fires, l, u = polynomial clamp fires below / above); alias: "
-        "crossover called with the same object twice (oracle only); random: 1..8 (sometimes 12..40) loci, list / "
-        "array('d') / numpy.ndarray individuals, scalar / list / tuple / array bounds, genes on a bound, next to a "
+        "crossover called with the same object twice (oracle only); containers: every operator x every kind of sequence "
+        "individual (list, array('d'), numpy.ndarray, a user class keeping its genes in an inner list with integer "
+        "indexing only, a user class with the bare __len__/__getitem__/__setitem__ protocol); random: 1..8 (sometimes "
+        "12..40) loci, individuals of the five kinds, scalar / list / tuple / array bounds, genes on a bound, next to a "
         "bound or inside, parents equal / within 1e-14 / one ulp apart at some loci, eta in {0,1,20,1000} or "
         "uniform / log-uniform in [0,1000], alpha in [0,2], indpb in {0,1,random}, c in [0,50], draws uniform or "
         "boundary values, gauss values N(0,1) or +-8.57 (largest value random.gauss can return) or 0.  Non-trivial = "
@@ -87,7 +89,64 @@ if not hasattr(creator, "C10List"):
     creator.create("C10Nd", numpy.ndarray, strategy=None)
 
 
+class Vec(object):
+    """a user-defined real sequence that keeps its genes in an inner list: integer indices only (no slicing),
+    `copy.copy` of it shares the inner list, iteration walks the live storage"""
+
+    def __init__(self, genes=()):
+        self._genes = [g for g in genes]
+
+    def __len__(self):
+        return len(self._genes)
+
+    def __getitem__(self, i):
+        if not isinstance(i, int):
+            raise TypeError("Vec supports integer indices only")
+        return self._genes[i]
+
+    def __setitem__(self, i, value):
+        if not isinstance(i, int):
+            raise TypeError("Vec supports integer indices only")
+        self._genes[i] = value
+
+    def __iter__(self):
+        return iter(self._genes)
+
+
+class Seq(object):
+    """the bare sequence protocol: `__len__`, `__getitem__` (IndexError ends an iteration), `__setitem__`;
+    no `__iter__`, no slicing, genes in an inner array('d')"""
+
+    def __init__(self, genes=()):
+        self._a = array.array("d", genes)
+
+    def __len__(self):
+        return len(self._a)
+
+    def __getitem__(self, i):
+        if not isinstance(i, int):
+            raise TypeError("Seq supports integer indices only")
+        return self._a[i]
+
+    def __setitem__(self, i, value):
+        if not isinstance(i, int):
+            raise TypeError("Seq supports integer indices only")
+        self._a[i] = value
+
+
+if not hasattr(creator, "C10Vec"):
+    creator.create("C10Vec", Vec, strategy=None)
+    creator.create("C10Seq", Seq, strategy=None)
+
+CONTAINERS = ["list", "array", "ndarray", "vec", "seq"]
+
+
 def mk_ind(cont, genes, strategy=None):
+    if cont in ("vec", "seq"):
+        ind = (creator.C10Vec if cont == "vec" else creator.C10Seq)([float(g) for g in genes])
+        if strategy is not None:
+            ind.strategy = (Vec if cont == "vec" else Seq)([float(v) for v in strategy])
+        return ind
     if cont == "ndarray":
         ind = creator.C10Nd([float(g) for g in genes])
         if strategy is not None:
@@ -738,9 +797,12 @@ def grid(tier):
            "s2": [1.0, 2.0, 3.0], "alpha": 0.5, "rs": [0.3, 0.6, 0.1, 0.2]}
 
 
-def random_case(rng):
-    op = rng.choice(["sbxb", "sbxb", "sbxb", "poly", "poly", "poly", "blend", "esblend", "sbx", "gauss", "logn"])
-    cont = rng.choice(["list", "list", "list", "array", "array", "ndarray"])
+OPS = ["sbxb", "poly", "blend", "esblend", "sbx", "gauss", "logn"]
+
+
+def random_case(rng, op=None, cont=None):
+    op = op or rng.choice(["sbxb", "sbxb", "sbxb", "poly", "poly", "poly", "blend", "esblend", "sbx", "gauss", "logn"])
+    cont = cont or rng.choice(["list", "list", "list", "array", "array", "ndarray", "vec", "seq"])
     n = rng.choice([1, 1, 2, 2, 3, 4, 5, 8]) if rng.random() < 0.93 else rng.choice([12, 17, 25, 40])
     edge_p = rng.choice([0.0, 0.0, 0.15, 0.5, 1.0])
     cat = "rand" if edge_p == 0 else "mix" if edge_p < 1 else "extreme"
@@ -851,7 +913,7 @@ def clamp_case(rng, op):
     else:
         low, up, bk = [p[0] for p in ps], [p[1] for p in ps], rng.choice(["list", "tuple", "array"])
     eta = rng.choice([0, 1, 2, 5, 20, 100, 1000, rng.uniform(0, 50), rng.uniform(0, 1000)])
-    d = {"op": op, "cat": "clamp", "cont": rng.choice(["list", "list", "array", "ndarray"]), "low": low, "up": up,
+    d = {"op": op, "cat": "clamp", "cont": rng.choice(["list", "list", "array", "ndarray", "vec", "seq"]), "low": low, "up": up,
          "bk": bk, "eta": eta}
     edge = DRAW_EDGE + [TOP, TOP, 0.0]
     if op == "poly":
@@ -900,7 +962,7 @@ def alias_case(rng):
     lo, up = rand_bound_pair(rng)
     x = [rand_gene(rng, lo, up) for _ in range(n)]
     edge_p = rng.choice([0.0, 0.3, 1.0])
-    d = {"op": op, "alias": True, "cat": "alias", "cont": rng.choice(["list", "array", "ndarray"]), "x1": x,
+    d = {"op": op, "alias": True, "cat": "alias", "cont": rng.choice(CONTAINERS), "x1": x,
          "rs": [rand_draw(rng, edge_p) for _ in range(3 * n)]}
     if op in ("blend", "esblend"):
         d["alpha"] = rand_alpha(rng)
@@ -923,6 +985,13 @@ def generate(tier, rng, mult):
         yield clamp_case(rng, "poly")
     for _ in range((4000 if thorough else 400) * mult):
         yield alias_case(rng)
+    # every operator on every kind of sequence individual (which pairs run never depends on the seed)
+    for op in OPS:
+        for cont in CONTAINERS:
+            for _ in range((400 if thorough else 40) * mult):
+                d = random_case(rng, op, cont)
+                d["cat"] = "cont-" + cont
+                yield d
     nrand = (500000 if tier == "thorough" else 30000) * mult
     for _ in range(nrand):
         yield random_case(rng)
@@ -965,7 +1034,7 @@ def shrink(d):
                             z = d["zs"]
                             e["zs"] = (z[:1] + z[1 + zo:]) if op == "logn" else z[zo:]
                         yield e
-    if d.get("cont") == "array":
+    if d.get("cont", "list") != "list":
         e = dict(d)
         e["cont"] = "list"
         yield e
